@@ -457,7 +457,7 @@ func TestC16Announcer(t *testing.T) {
 	rep.Extra["ok_not_followed_by_periodic_announce"] = noPeriod
 	rep.Extra["bounds"] = fmt.Sprintf("sequence length<=%d, %d answers", maxLen, int(numAnswers))
 	if retries[ansError] == 0 || retries[ansOK] == 0 || retries[ansTrackerRetry] == 0 || retries[ansDeadline] == 0 {
-		core.HarnessError("vacuous announcer run: retries=%v", retries)
+		rep.Vacuous("vacuous announcer run: retries=%v", retries)
 	}
 	rep.Finish()
 }
